@@ -101,7 +101,9 @@ impl<'a> Ev<'a> {
                     // early exit: `if c { return .. }` guards the rest of the block
                     if let Expr::If(ife) = e {
                         if ife.else_branch.is_none() && diverges_block(&ife.then_branch) {
-                            let c = self.cond_of(&ife.cond, false);
+                            self.silent += 1;
+                            let c = self.cond_of_s(&ife.cond, false, true);
+                            self.silent -= 1;
                             self.guards.push(json!({"k":"if","c":c,"neg":true,"line":line_of(ife),"early_exit":true}));
                         }
                     }
@@ -124,6 +126,10 @@ impl<'a> Ev<'a> {
 
     /// Condition value of an `if` (handles `if let`), without binding.
     fn cond_of(&mut self, c: &Expr, bind: bool) -> Value {
+        self.cond_of_s(c, bind, false)
+    }
+
+    fn cond_of_s(&mut self, c: &Expr, bind: bool, silent: bool) -> Value {
         if let Expr::Let(l) = c {
             let scrut = self.expr(&l.expr, "iflet_scrut");
             let mut vs = Vec::new();
@@ -134,9 +140,13 @@ impl<'a> Ev<'a> {
             }
             json!({"k":"iflet","pat":tok(&l.pat),"variants":vs,"scrut":scrut})
         } else {
-            self.silent += 1;
+            if silent {
+                self.silent += 1;
+            }
             let v = self.expr(c, "cond");
-            self.silent -= 1;
+            if silent {
+                self.silent -= 1;
+            }
             v
         }
     }
@@ -476,12 +486,7 @@ impl<'a> Ev<'a> {
             self.bind_pat(&arm.pat, &sc);
             let mut vs = Vec::new();
             pat_variants(&arm.pat, &mut vs);
-            let g = arm.guard.as_ref().map(|(_, g)| {
-                self.silent += 1;
-                let v = self.expr(g, "arm_guard");
-                self.silent -= 1;
-                v
-            });
+            let g = arm.guard.as_ref().map(|(_, g)| self.expr(g, "arm_guard"));
             self.guards.push(json!({"k":"arm","scrut":scrut,"pat":tok(&arm.pat),"variants":vs,"idx":ai,"guard":g,"line":line_of(arm)}));
             let calls_before = self.calls.len();
             let sites_before = self.sites.len();
